@@ -20,6 +20,7 @@ import (
 	"sort"
 
 	corev1 "k8s.io/api/core/v1"
+	"k8s.io/utils/ptr"
 
 	apiext "github.com/koordinator-sh/koordinator/apis/extension"
 	schedulingv1alpha1 "github.com/koordinator-sh/koordinator/apis/scheduling/v1alpha1"
@@ -209,7 +210,7 @@ func GetGPUTopologyScope(deviceInfos []*schedulingv1alpha1.DeviceInfo, nodeDevic
 		if info.Topology == nil {
 			return nil
 		}
-		minor := int(*info.Minor)
+		minor := int(ptr.Deref(info.Minor, 0))
 		if _, ok := numaTopologyScopeIndexer[info.Topology.NodeID]; !ok {
 			numaTopologyScopeIndexer[info.Topology.NodeID] = deviceResources{}
 		}
